@@ -153,6 +153,20 @@ class Grammar:
         mode = self.policy.get('spans', 'concrete')
         if mode == 'concrete':
             # deterministic tag derived from uid so that clones and replays agree
+            m = re.match(r'^(.*)/Expr\.expr/(?:Lit/)?[A-Za-z]+\.span$', uid)
+            if m:
+                # the expression of an expression statement `e;` starts where the statement starts and ends one byte (the
+                # semicolon the witnesses are printed with) before it: the one span relation swc guarantees that code may rely on
+                pk = self.span_ids().setdefault(m.group(1) + '/Expr.span', len(self.span_ids()) + 1)
+                gap = 1
+                if uid.endswith('/Expr.expr/Lit/Str.span'):
+                    # a string-literal statement (directive candidate): `'use strict';` or `'use strict' ;` -- the distance
+                    # between the end of the literal and the end of the statement is a path decision (witnesses print it)
+                    key = 'gap:' + uid
+                    if key not in self.ctx.decisions:
+                        self.ctx.decisions[key] = [1, 2][self.ctx.choose([True, True], 'semicolon adjacent | separated (%s)' % uid[-60:])]
+                    gap = self.ctx.decisions[key]
+                return Adt('Span', None, [Adt('BytePos', None, [pk * 100]), Adt('BytePos', None, [pk * 100 + 50 - gap])])
             k = self.span_ids().setdefault(uid, len(self.span_ids()) + 1)
             return Adt('Span', None, [Adt('BytePos', None, [k * 100]), Adt('BytePos', None, [k * 100 + 50])])
         lo = self.ctx.var('lo!' + uid, z3.BitVecSort(32))
